@@ -9,26 +9,56 @@ use serde_json::{Value, json};
 use crate::ls::{Ls, flagged_words, with_runtime};
 use crate::util::{Args, Out, Rng};
 
-// every text has its own misspelling, so the published diagnostics identify the text they were computed from
-const TEXTS: [(&str, &str, &str); 4] = [("A", "Alpha teh one", "teh"), ("B", "Beta wich two", "wich"), ("C", "Gamma zzyzxq three", "zzyzxq"), ("D", "Delta qwertzuv four", "qwertzuv")];
+// every text has its own misspelling, and every configuration leaves its own mark on every text, so the published
+// diagnostics identify the (text, configuration) pairs they can have been computed from
+const TEXTS: [(&str, &str, &str); 4] = [("A", "alpha teh one colour and 3 apples apples", "teh"), ("B", "beta wich two colour and 4 pears pears", "wich"),
+    ("C", "gamma zzyzxq three colour and 5 plums plums", "zzyzxq"), ("D", "delta qwertzuv four colour and 6 figs figs", "qwertzuv")];
+// (id, linters, dialect): default; a default-off rule on; spelling off; another dialect; default-on rules off
+const CONFIGS: [(&str, &str, &str); 5] = [("c0", "{}", "American"), ("c1", r#"{"SpelledNumbers":true}"#, "American"),
+    ("c2", r#"{"SpellCheck":false}"#, "American"), ("c3", "{}", "British"),
+    ("c4", r#"{"SentenceCapitalization":false,"SpelledNumbers":false}"#, "American")];
 
 fn text_of(id: &str) -> &'static str { TEXTS.iter().find(|t| t.0 == id).map(|t| t.1).unwrap_or("") }
-fn identify(diags: &Value) -> String {
-    let a = match diags.as_array() { Some(a) => a, None => return "none".into() };
-    if a.is_empty() { return "empty".into(); }
-    for (id, text, bad) in TEXTS {
-        if flagged_words(diags, text).iter().any(|w| w == bad) { return id.to_string(); }
+fn diag_digest(diags: &Value) -> String {
+    let mut v: Vec<String> = diags.as_array().map(|a| a.iter().map(|d| format!("{}|{}", d["range"], d["message"])).collect()).unwrap_or_default();
+    v.sort();
+    crate::util::digest(&v.join(";"))
+}
+type RefTable = std::collections::HashMap<(String, String), Vec<Value>>;
+/// What a fresh server publishes for every (text, configuration) in each language: (lang, digest) -> [{t, c}]
+fn reference_table(dir: &std::path::Path) -> RefTable {
+    let mut tab: RefTable = Default::default();
+    for (ci, (cid, linters, dialect)) in CONFIGS.iter().enumerate() {
+        let d = dir.join(format!("ref{ci}"));
+        std::fs::create_dir_all(&d).unwrap();
+        let mut ls = Ls::new(&d);
+        ls.settings = crate::ls::settings_for(&d, serde_json::from_str(linters).unwrap(), dialect);
+        ls.initialize();
+        for (li, lang) in ["plaintext", "markdown"].iter().enumerate() {
+            for (ti, (tid, text, _)) in TEXTS.iter().enumerate() {
+                let uri = format!("untitled:ref-{li}-{ti}");
+                let h = ls.did_open(&uri, lang, text);
+                ls.run_to_completion(h, Duration::from_secs(30));
+                let dg = ls.last_publish(&uri).cloned().unwrap_or(json!([]));
+                tab.entry((lang.to_string(), diag_digest(&dg))).or_default().push(json!({"t": tid, "c": cid}));
+            }
+        }
     }
-    "other".into()
+    tab
+}
+fn identify(diags: &Value, lang: &str, tab: &RefTable) -> Vec<Value> {
+    let mut ids = tab.get(&(lang.to_string(), diag_digest(diags))).cloned().unwrap_or_default();
+    if diags.as_array().map(|a| a.is_empty()).unwrap_or(true) { ids.push(json!({"t": "none", "c": ""})); }
+    ids
 }
 
 #[derive(Clone, Debug)]
 struct Msg { kind: String, url: usize, text: String }
 
-struct Sess { ls: Ls, dir: PathBuf, urls: Vec<String>, paths: Vec<Option<PathBuf>>, evs: Vec<Value>, seq: usize, client: Vec<String> }
+struct Sess<'a> { ls: Ls, dir: PathBuf, urls: Vec<String>, paths: Vec<Option<PathBuf>>, evs: Vec<Value>, seq: usize, client: Vec<String>, tab: &'a RefTable, ncfg: usize }
 
-impl Sess {
-    fn new(dir: PathBuf) -> Self {
+impl<'a> Sess<'a> {
+    fn new(dir: PathBuf, tab: &'a RefTable) -> Self {
         std::fs::create_dir_all(&dir).unwrap();
         let p1 = dir.join("one.txt");
         let p2 = dir.join("two.md");
@@ -37,7 +67,7 @@ impl Sess {
         let urls = vec![format!("file://{}", p1.to_string_lossy()), format!("file://{}", p2.to_string_lossy()), "untitled:Untitled-1".to_string()];
         let mut ls = Ls::new(&dir);
         ls.initialize();
-        Self { ls, dir, urls, paths: vec![Some(p1), Some(p2), None], evs: vec![json!({"ev": "Reset"})], seq: 0, client: vec![String::new(); 3] }
+        Self { ls, dir, urls, paths: vec![Some(p1), Some(p2), None], evs: vec![json!({"ev": "Reset"})], seq: 0, client: vec![String::new(); 3], tab, ncfg: 0 }
     }
     fn submit(&mut self, m: &Msg) -> usize {
         self.seq += 1;
@@ -45,7 +75,15 @@ impl Sess {
         let lang = if m.url == 1 { "markdown" } else { "plaintext" };
         if m.kind == "open" || m.kind == "change" { self.client[m.url] = m.text.clone(); }
         let shown = if m.kind == "open" || m.kind == "change" { m.text.clone() } else { self.client[m.url].clone() };
-        self.evs.push(json!({"ev": "Recv", "seq": self.seq, "kind": m.kind, "url": m.url, "text": shown}));
+        // a configuration change takes the configuration named in the message, or the next one of a fixed walk
+        let cfg = if m.kind == "config" {
+            self.ncfg += 1;
+            let want = CONFIGS.iter().position(|c| c.0 == m.text).unwrap_or([1, 2, 0, 3, 4, 2, 1, 0][(self.ncfg - 1) % 8]);
+            let (cid, linters, dialect) = CONFIGS[want];
+            self.ls.settings = crate::ls::settings_for(&self.dir, serde_json::from_str(linters).unwrap(), dialect);
+            cid
+        } else { "" };
+        self.evs.push(json!({"ev": "Recv", "seq": self.seq, "kind": m.kind, "url": m.url, "text": shown, "cfg": cfg}));
         match m.kind.as_str() {
             "open" => self.ls.did_open(&url, lang, text_of(&m.text)),
             "change" => self.ls.did_change(&url, self.seq as i64 + 1, text_of(&m.text)),
@@ -57,7 +95,7 @@ impl Sess {
             "close" => self.ls.did_close(&url),
             "adduser" => self.ls.exec("HarperAddToUserDict", json!(["harperish", url])),
             "addfile" => self.ls.exec("HarperAddToFileDict", json!(["harperish", url])),
-            "config" => { self.ls.settings = crate::ls::settings_for(&self.dir, json!({"SpelledNumbers": self.seq % 2 == 0}), "American"); self.ls.did_change_configuration() }
+            "config" => self.ls.did_change_configuration(),
             "delete" => self.ls.submit("workspace/didChangeWatchedFiles", json!({"changes": [{"uri": url, "type": 3}]}), false),
             _ => unreachable!(),
         }
@@ -66,7 +104,8 @@ impl Sess {
         for i in from..self.ls.publishes.len() {
             let (u, d, h) = self.ls.publishes[i].clone();
             let ui = self.urls.iter().position(|x| *x == u).map(|x| x as i64).unwrap_or(-1);
-            self.evs.push(json!({"ev": "Pub", "url": ui, "text": identify(&d), "handler": self.ls.handlers[h].label}));
+            let lang = if ui == 1 { "markdown" } else { "plaintext" };
+            self.evs.push(json!({"ev": "Pub", "url": ui, "ids": identify(&d, lang, self.tab), "n": d.as_array().map(|a| a.len()).unwrap_or(0), "handler": self.ls.handlers[h].label}));
         }
     }
     /// run one message alone, to quiescence
@@ -117,9 +156,10 @@ pub fn main(a: &Args) {
     let _ = std::fs::remove_dir_all(&base);
     let m = |k: &str, u: usize, t: &str| Msg { kind: k.to_string(), url: u, text: t.to_string() };
     with_runtime(|| {
+        let tab = reference_table(&base);
         let mut n = 0;
         let mut run = |prefix: &[Msg], batch: &[Msg], order: &[usize], tail: &[Msg], out: &mut Out| {
-            let mut s = Sess::new(base.join(format!("s{n}"))); n += 1;
+            let mut s = Sess::new(base.join(format!("s{n}")), &tab); n += 1;
             for p in prefix { s.sequential(p); }
             if !batch.is_empty() { s.batch(batch, order); }
             for p in tail { s.sequential(p); }
@@ -157,6 +197,16 @@ pub fn main(a: &Args) {
                 }
             }
             run(&[m("open", u, "A"), m("change", u, "B"), m("change", u, "A"), m("change", u, "A")], &[], &[], &[], &mut out);
+        }
+        // (1d) configuration walks: every ordered pair of configurations around an edit, then back to the default
+        // (an override that is set and later removed; a dialect switch and back)
+        for u in 0..3usize {
+            for ci in 1..CONFIGS.len() {
+                for cj in 0..CONFIGS.len() {
+                    if ci == cj || (u + ci + cj) % 3 != 0 && u != 0 { continue; }
+                    run(&[m("open", u, "A"), m("config", u, CONFIGS[ci].0), m("config", u, CONFIGS[cj].0), m("change", u, "B"), m("config", u, "c0")], &[], &[], &[], &mut out);
+                }
+            }
         }
         // (1c) random protocol-conforming sequential sessions over two texts only, so that states repeat
         for _ in 0..a.num("random-seq", 25) {
